@@ -321,11 +321,16 @@ def oracle(ctx, R, units, case):
     chunks, off = {}, {}
     written = {}          # conn -> list of (opidx, j)
     first_fail = {}       # j -> opidx of first state in which it is failed
+    held_before = {}      # j -> connection the exchange held in the state before it failed
+    prev_ex = []
     for i, s in enumerate(R.states):
         ex = s[2:s.index("] C[")].split(";") if s.startswith("E[") and "] C[" in s else []
         for j, e in enumerate(ex):
             if e.startswith("failed") and j not in first_fail:
                 first_fail[j] = (i, e.rsplit("err:", 1)[-1])
+                pc = prev_ex[j].split(",")[1] if j < len(prev_ex) and prev_ex[j] else "-"
+                held_before[j] = None if pc == "-" else int(pc)
+        prev_ex = ex
     dirty = {}            # conn -> (reason)
     viol = []
     req_off = {}          # (c, j) -> stream offset when request j was written on c
@@ -365,7 +370,11 @@ def oracle(ctx, R, units, case):
             for i in sorted(fail_marks):
                 if i < opi:
                     for (fj, kind) in fail_marks.pop(i):
-                        for fc in used_so_far.get(fj, []):
+                        # the connection the exchange still held when it failed (none if it had released it before)
+                        fc = held_before.get(fj)
+                        if fc is None and kind != "connclosed" and used_so_far.get(fj) and R.ops[i][0] == "Q":
+                            fc = None
+                        if fc is not None:
                             dirty.setdefault(fc, "after-" + kind.replace("E_OTHER", "error"))
             prev = written.setdefault(c, [])
             if prev:
@@ -592,8 +601,8 @@ def evaluate(ctx, R, units, variants, cfg, where, sample=False):
 
 def check(ctx):
     rng = ctx.rng
-    n_same = 700 if ctx.quick else 14000
-    n_keys = 150 if ctx.quick else 2500
+    n_same = 2400 if ctx.quick else 60000
+    n_keys = 500 if ctx.quick else 10000
     jobs = []
     for i in range(n_same + n_keys):
         cfg = cfg_draw(rng)
